@@ -32,6 +32,7 @@ import NetflowModel.Props.C04c
 import NetflowModel.Props.C14b
 import NetflowModel.Props.C06c
 import NetflowModel.Props.C15b
+import NetflowModel.Props.C15c
 import NetflowModel.Props.C08b
 import NetflowModel.Props.C07c
 import NetflowModel.Props.C13b
